@@ -112,18 +112,30 @@ def _check_cexp(ctx) -> None:
 
 # ====================================================================== R-ODD-PHASE
 def _phase_args(f: FuncInfo):
-    return [c for c in walk_no_nested(f.node) if isinstance(c, ast.Call) and last_attr(c) == "complex_exponential"
-            and len(c.args) == 1]
+    """Calls that build e^(i·phase): complex_exponential(phase) and exp(<expression containing 1j>)."""
+    out = []
+    for c in walk_no_nested(f.node):
+        if isinstance(c, ast.Call) and len(c.args) == 1 and not c.keywords:
+            if last_attr(c) == "complex_exponential":
+                out.append((c, False))
+            elif last_attr(c) == "exp" and any(isinstance(m, ast.Constant) and isinstance(m.value, complex)
+                                               for m in ast.walk(c.args[0])):
+                out.append((c, True))
+    return out
 
 
 def _check_odd(ctx, f: FuncInfo, var: str) -> int:
     df = DataFlow(f.node)
     calls = _phase_args(f)
-    ctx.require(len(calls) >= 2, f"{f.qualname}: expected >=2 complex_exponential factors, found {len(calls)}")
-    for i, c in enumerate(calls):
+    ctx.require(len(calls) >= 1, f"{f.qualname}: no e^(i·phase) factor found")
+    for i, (c, is_exp) in enumerate(calls):
         nz = FlowNormalizer(df, _stmt_node(df, f, c))
         nz.no_inline.add(var)
         p = nz.norm(c.args[0])
+        if is_exp:
+            if not p.has_factor_atom(lambda a: a == "𝑖"):
+                raise AnalysisError(f"{f.qualname}: exp({p.key()[:60]}) is not of the form exp(i·phase)")
+            p = p * Poly.atom("𝑖").inverse()
         bad = []
         for mono in p.terms:
             e = sum((x for a, x in mono if a == var), Fraction(0))
@@ -328,8 +340,9 @@ def _check_transmit_class(ctx, ip: M.Interp, s_tm: M.Summary) -> None:
     bandlimit = repo.method(AA, "AntialiasAperture", "bandlimit")
     PRESERVE = {"copy", "copy_to_device", "to_cpu", "to_gpu", "compute", "get_chunk"}
 
-    def classify(expr: ast.expr, at: int, depth: int = 0):
-        """-> list of (origin text, value | 'given')."""
+    def classify(expr: ast.expr, at: int, depth: int = 0, chain: tuple = ()):
+        """-> list of (origin text, value | ('given', parameter, chain of CFG nodes read on the way))."""
+        chain = chain + (at,)
         if depth > 12:
             raise AnalysisError(f"{f.qualname}: definition chain of the transmit receiver too deep")
         if isinstance(expr, ast.Name):
@@ -339,30 +352,30 @@ def _check_transmit_class(ctx, ip: M.Interp, s_tm: M.Summary) -> None:
                 raise AnalysisError(f"{f.qualname}: `{expr.id}` has no reaching definition")
             for d in defs:
                 if d.kind == "param":
-                    out.append((f"parameter `{expr.id}`", "given"))
+                    out.append(("parameter", ("given", expr.id, chain)))
                 elif d.kind == "assign" and d.strong and d.value is not None:
-                    out += classify(d.value, d.node, depth + 1)
+                    out += classify(d.value, d.node, depth + 1, chain)
                 else:
                     raise AnalysisError(f"{f.qualname}: `{expr.id}` defined by an unmodelled construct ({d.kind})")
             return out
         if isinstance(expr, ast.Call) and isinstance(expr.func, ast.Attribute):
             m = expr.func.attr
             if m == "transmission_function":
-                return [(f"{norm_text(expr)[:50]}", s_tm.value)]
+                return [("transmission_function()", s_tm.value)]
             if m in PRESERVE:
-                return classify(expr.func.value, at, depth + 1)
+                return classify(expr.func.value, at, depth + 1, chain)
             if m == bandlimit.name:
                 b = bind_args(expr, bandlimit, skip_self=True)
                 xname = bandlimit.positional_params[1]
                 if xname not in b:
                     raise AnalysisError(f"{f.qualname}: cannot bind the argument of {norm_text(expr)[:50]}")
                 out = []
-                for origin, v in classify(b[xname], at, depth + 1):
-                    if v == "given":
+                for origin, v in classify(b[xname], at, depth + 1, chain):
+                    if isinstance(v, tuple):
                         v = M.ObjV("TransmissionFunction", M.cplx(0.0, 1.0))
                     s = ip.run(bandlimit, {xname: v, **{p: M.boolean() for p in bandlimit.positional_params[2:]}},
                                self_val=M.Opaque("object", "self", aacls))
-                    out.append((f"{bandlimit.short}({origin})", s.value))
+                    out.append((f"{bandlimit.name}({origin})", s.value))
                 return out
         raise AnalysisError(f"{f.qualname}: cannot classify the transmit receiver `{norm_text(expr)[:60]}`")
 
@@ -373,13 +386,23 @@ def _check_transmit_class(ctx, ip: M.Interp, s_tm: M.Summary) -> None:
     for c in calls:
         at = _stmt_node(df, f, c)
         for origin, v in classify(c.func.value, at):
-            if origin in done:
+            dk = (origin, v[2]) if isinstance(v, tuple) else origin
+            if dk in done:
                 continue
-            done.add(origin)
+            done.add(dk)
             cons = f"{f.qualname}:transmit-receiver {origin}"
-            if v == "given":
-                ctx.info("R-TRANSMIT-CLASS", cons, f.loc(c), "caller-supplied TransmissionFunction: class assumed, "
-                                                             "not decided")
+            if isinstance(v, tuple):
+                _, pname, nodes = v
+                guarded = any(_isinstance_guard(repo, f, df, nd, pname) for nd in nodes)
+                if guarded:
+                    ctx.ok("R-TRANSMIT-CLASS", cons, f.loc(c), f"`{pname}` is used as the factor only under "
+                           "isinstance(..., TransmissionFunction); its modulus class is the caller's (assumed <= 1)",
+                           nontrivial=False)
+                else:
+                    ctx.violation("R-TRANSMIT-CLASS", cons, f.loc(c),
+                                  f"parameter `{pname}` reaches .transmit() without being converted by "
+                                  ".transmission_function() and without an isinstance(..., TransmissionFunction) guard: a "
+                                  "potential (values in eV) would be multiplied onto the wave", key_detail="unguarded")
                 continue
             a = M.as_av(v)
             if a.le1():
@@ -433,3 +456,42 @@ def _check_kernel_flow(ctx) -> None:
     ctx.check(bool(rets) and all(r.value is not None and dotted(r.value) == "self._array" for r in rets),
               "R-KERNEL-FLOW", f"{ga.qualname}:returns", ga.where, "every return hands out self._array",
               "get_array returns something other than the cached kernel", key_detail="returns")
+
+
+def _isinstance_guard(repo, f: FuncInfo, df: DataFlow, node_idx: int, pname: str) -> bool:
+    """Is CFG node `node_idx` inside the arm of an `if` that holds only when
+    isinstance(pname, <TransmissionFunction or subclass>) is true?"""
+    tcls = repo.cls(IAM, "TransmissionFunction")
+    target = df.cfg.nodes[node_idx].ast
+
+    def is_test(t: ast.expr):
+        """+1 if t is the isinstance test, -1 if its negation, else 0."""
+        if isinstance(t, ast.UnaryOp) and isinstance(t.op, ast.Not):
+            return -is_test(t.operand)
+        if isinstance(t, ast.Call) and call_name(t) == "isinstance" and len(t.args) == 2 and dotted(t.args[0]) == pname:
+            names = [t.args[1]] if not isinstance(t.args[1], ast.Tuple) else list(t.args[1].elts)
+            for nm in names:
+                c = repo.resolve_name(f.module, dotted(nm) or "")
+                if c is None or not hasattr(c, "mro") or tcls not in c.mro():
+                    return 0
+            return 1
+        return 0
+
+    def search(body, holds: bool) -> bool:
+        for st in body:
+            if st is target:
+                return holds
+            if isinstance(st, ast.If):
+                pol = is_test(st.test)
+                if any(m is target for b in st.body for m in ast.walk(b)):
+                    return search(st.body, holds or pol == 1)
+                if any(m is target for b in st.orelse for m in ast.walk(b)):
+                    return search(st.orelse, holds or pol == -1)
+            else:
+                for fld in ("body", "orelse", "finalbody"):
+                    sub = getattr(st, fld, None)
+                    if isinstance(sub, list) and any(m is target for b in sub for m in ast.walk(b)):
+                        return search(sub, holds)
+        return False
+
+    return search(f.node.body, False)
